@@ -13,8 +13,8 @@ SPECDIR = os.path.join(vf.SPEC, "air")
 
 META = dict(
     technique="TLA+ transcription of the seed vector as byte strings; TLC explores all valid contexts of a boundary-value grid with one-parameter steps and a metadata family pairwise (injectivity); every explored pair is rebuilt with the real constructors and the real to_elements vectors are compared",
-    text="For element sizes 8 (f62, f64) and 16 (f128) TLC visits every valid context of a grid with 2-4 boundary values for each of the 13 listed parameters and every transition that changes exactly one parameter, plus all pairs of a metadata family (five content patterns x lengths 0..2*chunk+1 and all binary strings up to 4 bytes, on two base contexts); the real Context::to_elements vectors of every such pair must differ, and the real vector equals the model's byte strings on every explored context, so the model-level result (the only colliding pairs are metadata strings that differ by trailing zero bytes inside the last chunk) is a statement about the code.",
-    note="Bounded to the grid values and the metadata family; batching methods and partition options are not listed in the property and are not part of the seed. Contexts are built with the public constructors (no deserialised contexts with arbitrary modulus bytes).",
+    text="For element sizes 8 (f62, f64) and 16 (f128) TLC visits every valid context of a grid with 2-4 boundary values for each of the 13 listed parameters and every transition that changes exactly one parameter, plus all pairs of a metadata family (five content patterns x lengths 0..2*chunk+1 and all binary strings up to 4 bytes, on two base contexts), plus the option parameters under each of the 8 non-default pairs of batching methods; the real Context::to_elements vectors of every such pair must differ, and the real vector equals the model's byte strings on every explored context, so the model-level result (the only colliding pairs are metadata strings that differ by trailing zero bytes inside the last chunk) is a statement about the code.",
+    note="Bounded to the grid values and the metadata family; batching methods and partition options are not listed in the property and are not part of the seed (batching methods are varied as background options, never stepped). Contexts are built with the public constructors (no deserialised contexts with arbitrary modulus bytes).",
     design="7/C24")
 
 SIG_TZ = "C24 metadata trailing-zero collision"
@@ -92,7 +92,8 @@ def run(ck, tier, mutate=None):
     binary = vf.build_harness("airint")
     sfx = "_thorough" if tier == "thorough" else ""
     jobs = [("grid8", "GenContextSeed8%s.cfg" % sfx), ("grid16", "GenContextSeed16%s.cfg" % sfx),
-            ("meta8", "GenContextMeta8.cfg"), ("meta16", "GenContextMeta16.cfg")]
+            ("meta8", "GenContextMeta8.cfg"), ("meta16", "GenContextMeta16.cfg"),
+            ("opt8", "GenContextOpt8.cfg"), ("opt16", "GenContextOpt16.cfg")]
     res = {}
 
     def work(name, cfg):
